@@ -87,6 +87,11 @@ func randomOp(r *gen.Rng, w, h int) string {
 		}
 		return p
 	}
+	// round 4: now and then a non-SGR function whose parameter string contains a colon (a VT / xterm ignores the sequence: F106f)
+	if r.Chance(1, 150) {
+		f := gen.Pick(r, []string{"A", "B", "C", "D", "E", "F", "G", "d", "H", "f", "r", "K", "J", "X", "@", "P", "L", "M", "S", "T"})
+		return emuh.Csi(f, gen.Pick(r, []string{"1:5", "2:1", "2:1;2", "1;2:7", "2;1;1:1", "0:0"}))
+	}
 	switch k := r.Intn(100); {
 	case k < 38:
 		return emuh.Pr(gen.Pick(r, []string{"a", "b", "c", "x", "y", "z", " ", "é", "世", "界", "🔥", "a", "b"}))
